@@ -148,6 +148,7 @@ pub fn ls_check(id: &str) -> Option<LsCheck> {
                 buffer_sizes: vec![64],
                 w: w(|w| {
                     w.adv = 30;
+                    w.bulkwide = 1;
                     w.tick = 0;
                     w.clear = 1;
                     w.umc = 0;
@@ -390,7 +391,7 @@ pub fn ls_check(id: &str) -> Option<LsCheck> {
             profile: Profile {
                 name: "charged-cost",
                 negative_costs: true,
-                modes: vec![Mode::Quiescent],
+                modes: vec![Mode::Quiescent, Mode::Quiescent, Mode::Schedule],
                 ttl_pct: 25,
                 w: w(|w| {
                     w.insert = 42;
@@ -401,7 +402,7 @@ pub fn ls_check(id: &str) -> Option<LsCheck> {
             },
             quick: 24_000,
             thorough: 400_000,
-            rule: "quiescent lock-step cases, explicit and Coster-valued (cost 0) writes, both settings of ignore_internal_cost; non-trivial = an update of a resident key that changes its charge, or a Coster-valued write; distinct by case hash",
+            rule: "lock-step cases (two thirds quiescent; one third with the processor arms firing only where generated, so that updates also meet a full insert buffer), explicit, negative and Coster-valued (cost 0) writes, both settings of ignore_internal_cost; non-trivial = an update of a resident key that changes its charge, or a Coster-valued write; distinct by case hash",
             nontrivial: |f| f.cost_changing_updates > 0 || f.coster_writes > 0,
             assumptions: &["default (always) validator"],
             scenarios: vec![],
@@ -1192,7 +1193,7 @@ pub fn diff_profile() -> Profile {
         name: "sync-vs-async",
         modes: vec![Mode::Quiescent],
         async_pct: 0,
-        cap: Cap::Tight,
+        cap: Cap::Mixed,
         ttl_pct: 55,
         len: (20, 90),
         big_advances: false,
@@ -1206,6 +1207,7 @@ pub fn diff_profile() -> Profile {
             w.adv = 16;
             w.wait = 3;
             w.gethold = 3;
+            w.bulkwide = 1;
             w
         },
         ..Profile::default()
